@@ -21,8 +21,8 @@
     * `not`, unary minus, `and`, `or`, `?:`, the ternary, `==`, `!=`, `+` (integer, float, string
       concatenation — of any printable values, lists included), `-`, `*`, `/`, `%`; `< > <= >=` in
       `eval_refines_spec_ordering` (`ordExact` is a theorem);
-    * the builtins isNonnull, length, strContains, hasData, range, min, max, keys (sorted, on both sides) and
-      augmentMap (`Lemmas/FuncRefine.lean`).
+    * the builtins isNonnull, length, strContains, hasData, range, min, max, keys (sorted, on both sides),
+      augmentMap, floor and ceiling (`Lemmas/FuncRefine.lean`; floor / ceiling of a float: `Lemmas/F64Floor.lean`).
 
   Still outside — why the theorems keep `_partial`:
     * names ending in a loop's bookkeeping suffix (`x.index`, `x.lastIndex` — no variable name contains a
@@ -33,7 +33,7 @@
       whatever its size, the interpreter keeps it as an int64 — the two differ for a loop over more than
       2^63 items, and the specification's clause is pinned by Props/C04c (`hspec`); it would need a guard
       on the loop length there;
-    * round / floor / ceiling: they need exactness lemmas about the soft-float (decode ∘ round-to-nearest on
+    * round (floor and ceiling are inside now): it needs exactness lemmas about the soft-float (decode ∘ round-to-nearest on
       integers below 2^53, exact products by powers of ten) that are not proved; randomInt (a PRNG);
     * a map literal whose TREE repeats a key — no parser produces one: `parseMapLiteral` keeps the last value
       of a repeated key and the tree is sorted by key (`mapFragO_of_sorted`).
@@ -1046,6 +1046,12 @@ example : ∃ mv n', evalE m1 xaeb 7 = .ok mv n' ∧ absV mv = .str [66] :=
   (eval_refines_spec_partial rel1 xaeb (by decide) 7).1 (.str [66]) (by rfl)
 example : evalE m1 (.dataRef 0 [120] (.cons (.key 0 false [122, 122]) (.cons (.key 0 false [121]) .nil))) 7 = .err :=
   (eval_refines_spec_partial rel1 _ (by decide) 7).2 (by rfl)
+
+/-! `floor(2.5) + ceiling(-2.5)` = 2 + (-2) = 0 (`Lemmas/F64Floor.lean`: `int64(math.Floor(x))` is the exact floor) -/
+def eFloor : Expr := .bin .add 0 (.func 0 fFloor (.cons (.float 0 0x4004000000000000) .nil))
+  (.func 0 fCeiling (.cons (.float 0 0xC004000000000000) .nil))
+example : ∃ mv n', evalE m1 eFloor 7 = .ok mv n' ∧ absV mv = .int 0 :=
+  (eval_refines_spec_partial rel1 eFloor (by decide) 7).1 (.int 0) (by rfl)
 
 /-! `$ij.u.v` with injected data {u: {v: 'J'}}; and `$ij` without injected data is an error on both sides -/
 def mIj : EEnv := { m1 with ij := some (9, [([117], .map 8 [([118], .str [74])])]) }
